@@ -756,6 +756,33 @@ func runC07(c *mc.Ctx) {
 			}
 		}
 	}
+	// human-readable parts containing bytes outside 33..126 WITH the checksum that belongs to them (a
+	// substituted byte fails the checksum whatever the range test does; only a string encoded for that
+	// very hrp shows whether the range test is there): every single byte 0..32 and 127..255, every
+	// well-formed two-byte UTF-8 character, some three- and four-byte ones, at the start, in the
+	// middle and at the end of the hrp
+	{
+		var xs []string
+		for b := 0; b < 256; b++ {
+			if b < 33 || b > 126 {
+				xs = append(xs, string([]byte{byte(b)}))
+			}
+		}
+		for b1 := 0xc2; b1 <= 0xdf; b1++ {
+			for b2 := 0x80; b2 <= 0xbf; b2++ {
+				xs = append(xs, string([]byte{byte(b1), byte(b2)}))
+			}
+		}
+		xs = append(xs, "\u20ac", "\uff01", "\u212a", "\U0001f600", "\u00e9\u00e9", "\u00bf\u00a1")
+		d10 := []byte{1, 2, 3, 4, 5, 6, 7, 8, 9, 10}
+		for _, x := range xs {
+			for _, hrp := range []string{x, "a" + x + "b", x + "bc", "ab" + x} {
+				if s, ok := ref.Bech32Encode(hrp, d10); ok && len(s) <= 90 {
+					strs = append(strs, s)
+				}
+			}
+		}
+	}
 	strs = append(strs, bip173Valid...)
 	strs = append(strs, bip173Invalid...)
 	tiny := []byte{'q', 'p', '1', 'a', 'A', '!'}
